@@ -1,3 +1,89 @@
-import QtyModel.Tables
+import QtyModel.Lemmas.Basic
+/-
+  C01 — Unit conversion preserves the physical value.
+
+  Property theorems only.  Quantifiers: every arithmetic `R` satisfying the
+  rounding laws `Laws R M`, every unit type `U`, every table `T` (i.e. every
+  assignment of scales), every pair of units and every amount.
+-/
 namespace Qty.C01
+open Qty
+
+variable {A U : Type} [DecidableEq U] (R : Arith A) (T : QT A U)
+
+/-- the converted value carries exactly the requested unit -/
+theorem convert_unit (q r : Q A U) (u : U) (h : convert R T q u = .ok r) : r.unit = u := by
+  unfold convert at h
+  cases he : equivAmount R T q u with
+  | error e => simp [he, bind, Except.bind] at h
+  | ok v => simp [he, bind, Except.bind, pure, Except.pure] at h; rw [← h]
+
+/-- converting to the unit a value already has returns the identical amount
+(structurally the same value: no rounding, NaN / -0 / digit count preserved) -/
+theorem convert_same_unit (q : Q A U) : convert R T q q.unit = .ok ⟨q.amount, q.unit⟩ := by
+  simp [convert, equivAmount, bind, Except.bind, pure, Except.pure]
+
+/-- `equiv_amount` returns the same number that `convert` stores -/
+theorem equiv_eq_convert (q : Q A U) (u : U) :
+    (convert R T q u).map (·.amount) = equivAmount R T q u := by
+  unfold convert
+  cases equivAmount R T q u <;> rfl
+
+/-- the physical magnitude (amount × unit scale) is preserved up to the rounding of the
+amount type: the error is at most `|s₂|·(E((|ρ|+E ρ)|a|) + |a|·E ρ)` with `ρ = s₁/s₂` —
+the same function the run-time oracle `Oracle.c01` evaluates on implementation outputs. -/
+theorem convert_mag {M : ErrModel} (L : Laws R M) (q : Q A U) (u : U) (s1 s2 a : Rat)
+    (hne : q.unit ≠ u)
+    (hs1 : R.val (T.scale q.unit) = some s1) (hs2 : R.val (T.scale u) = some s2) (hs2ne : s2 ≠ 0)
+    (ha : R.val q.amount = some a) (hsafe : Oracle.convSafe M s1 s2 a = true) :
+    ∃ r y, convert R T q u = .ok r ∧ r.unit = u ∧ R.val r.amount = some y ∧
+      ratAbs (y * s2 - a * s1) ≤ Oracle.convBound M s1 s2 a := by
+  simp only [Oracle.convSafe, Bool.and_eq_true] at hsafe
+  obtain ⟨hsafe1, hsafe2⟩ := hsafe
+  obtain ⟨ρ', r', hdiv, hρ'v, hρ'e⟩ := L.div_ok _ _ s1 s2 hs1 hs2 hs2ne hsafe1
+  have hE := L.wf.E_nonneg (s1 / s2)
+  have hcb : 0 ≤ Oracle.convBoundIn M s1 s2 a := by
+    unfold Oracle.convBoundIn
+    have h1 := L.wf.E_nonneg ((ratAbs (s1 / s2) + M.E (s1 / s2)) * ratAbs a)
+    have h2 : 0 ≤ ratAbs a := by rw [ratAbs_eq_abs]; exact abs_nonneg a
+    positivity
+  -- |r'| ≤ |ρ| + E ρ
+  rw [ratAbs_eq_abs] at hρ'e
+  have hr' : |r'| ≤ |s1 / s2| + M.E (s1 / s2) := by
+    have := abs_sub_abs_le_abs_sub r' (s1 / s2)
+    linarith
+  have hprod : ratAbs (r' * a) ≤ ratAbs ((ratAbs (s1 / s2) + M.E (s1 / s2)) * ratAbs a) := by
+    simp only [ratAbs_eq_abs]
+    rw [abs_mul, abs_mul, abs_abs]
+    have : |r'| ≤ abs (|s1 / s2| + M.E (s1 / s2)) := le_trans hr' (le_abs_self _)
+    exact mul_le_mul_of_nonneg_right this (abs_nonneg a)
+  have hsafe3 : M.safe (r' * a) = true := by
+    apply L.wf.safe_mono _ _ _ hsafe2
+    refine le_trans hprod ?_
+    simp only [ratAbs_eq_abs]
+    have h0 : 0 ≤ (|s1 / s2| + M.E (s1 / s2)) * |a| := by positivity
+    exact abs_le_abs_of_nonneg h0 (by linarith)
+  obtain ⟨c, y, hmul, hyv, hye⟩ := L.mul_ok _ _ r' a hρ'v ha hsafe3
+  refine ⟨⟨c, u⟩, y, ?_, rfl, hyv, ?_⟩
+  · simp [convert, equivAmount, hne, ratio, hdiv, hmul, bind, Except.bind, pure, Except.pure]
+  · have hE2 : M.E (r' * a) ≤ M.E ((ratAbs (s1 / s2) + M.E (s1 / s2)) * ratAbs a) :=
+      L.wf.E_mono _ _ hprod
+    rw [ratAbs_eq_abs] at hye
+    unfold Oracle.convBound Oracle.convBoundIn
+    simp only [ratAbs_eq_abs] at *
+    have key : y * s2 - a * s1 = s2 * ((y - r' * a) + (r' - s1 / s2) * a) := by
+      field_simp; ring
+    rw [key, abs_mul]
+    apply mul_le_mul_of_nonneg_left _ (abs_nonneg s2)
+    calc |y - r' * a + (r' - s1 / s2) * a|
+        ≤ |y - r' * a| + |(r' - s1 / s2) * a| := abs_add_le _ _
+      _ = |y - r' * a| + |r' - s1 / s2| * |a| := by rw [abs_mul]
+      _ ≤ M.E ((|s1 / s2| + M.E (s1 / s2)) * |a|) + |a| * M.E (s1 / s2) := by
+          have := mul_le_mul_of_nonneg_right hρ'e (abs_nonneg a)
+          linarith [mul_comm (M.E (s1 / s2)) |a|]
+
+/-- non-vacuity: the hypotheses of `convert_mag` are met by a concrete conversion
+(3.5 ft → in in the decimal back-end: scales 0.3048 and 0.0254) -/
+example : Oracle.convSafe ErrModel.dec (3048 / 10000) (254 / 10000) (35 / 10) = true := by decide +kernel
+
 end Qty.C01
